@@ -109,7 +109,12 @@ PROP = dict(
               "sample][2 frames of traffic], traffic = noise 40 / 20 dB below the preamble power, preamble absent / ending on the last "
               "sample before the gap / ending mid-frame before the gap / starting on the first sample after the gap, every preamble, 3 "
               "amplitudes, 4 thresholds, 1 and 2 frames per call; in the silence variant of the preamble streams every frame without "
-              "preamble samples is exactly zero",
+              "preamble samples is exactly zero; SCALE: detector.refscale - every preamble handed to the constructor as c*h, c in {1e-3, "
+              "0.1, sqrt 2 (the +-1+-j QPSK mapping), 10, 1e3}, stream carrying c*h / the unit-scale h / no preamble, end offsets "
+              "{0, nh/2, nh-1, frame_len-1}, silence / floor, thresholds 0.5 and 0.9, 1 and 2 frames per call; peakloc(real): every "
+              "case of the grid repeated with the data times 2^k, k in {-1000,-300,-60,-50,-40,40,300,1000}, location bit-identical "
+              "to unit scale; peakloc(complex): n {3,5}, every idx, cyclic on/off, every triple over 6 complex values with non-zero "
+              "denominator, data times 2^k, k in {-300,-60,-50,-40,40,300}, bit-identical",
         thorough="estimators: every len in 128..1100 (3 letters x {clean, -40 dB, -30 dB}), "
                  "len {2047,2048,2049,4095,4096,5000,8191,8192} (1 letter x {clean, -30 dB}) - i.e. every power of two 128..8192 and the "
                  "lengths just below / above - each with every d in [-len/4, len/4], fs {1, 8000, 48000}, and the BIG lengths of quick; "
@@ -120,7 +125,8 @@ PROP = dict(
                  "(frame lengths 17..725), every offset modulo frame_len (incl. preamble starting on the first sample of a frame), "
                  "preamble ending in frame 1 and in frame 2, thresholds {0.3,0.4,0.5,0.6,0.7,0.8,0.9,0.95}; reset histories a-d and "
                  "rejected-call histories (3 placements x 4 L_bad) at the 32 boundary/spread offsets per preamble; long streams and "
-                 "exact-zero-frame streams as quick over the larger preamble / threshold grid"),
+                 "exact-zero-frame streams as quick over the larger preamble / threshold grid; detector.refscale at the 32 offsets per "
+                 "preamble; peakloc scale letters on the thorough grids (complex: n {3,4,5,6,8})"),
     deadline=dict(quick=150, thorough=3000),
     assumptions=COMMON_ASSUME + [
         "white signal = fixed deterministic letters (sum of 4 LCG uniforms, unit variance); noise = another such letter 30 / 40 dB below",
@@ -132,6 +138,12 @@ PROP = dict(
         "-DVERIF_GCCPHAT_FRAC and is NOT enabled: on the pinned tree gccphat's sub-sample refinement moves away from the true delay "
         "(delay 0.375 samples -> tau = -0.52), reported to the lead as an observation outside C18",
         "peakloc non-cyclic at idx 0 / n-1 has no three samples around the index: not checked (statement silent)",
+        "scale letters: multiplying the data by a power of two is exact, so peakloc must return the bit-identical location (held by the "
+        "pinned tree for every case; the complex overload is limited to 2^+-300 because its division squares the operands, and only its "
+        "scale invariance is checked - the statement does not define it); gccphat's refinement works on the PHAT-normalised "
+        "correlation, which does not scale with the data, so it gets no scale letters here (the purity pass covers 2^+-100)",
+        "the reference given to the PreambleDetector constructor is a free input: the documented statistic is evaluated with the "
+        "scaled reference and the library's rms() of it, which makes the expected score independent of the reference scale",
         "detector reference = header formula with the matched (flipped, conjugated) preamble, normalised by the library's own rms(h) "
         "(its n-1 normalisation belongs to C17); score must be within 1e-9 of the reference and in [0.95, 1]; frame = the argument of one "
         "process() call (1 or 2 multiples of frame_len())",
